@@ -303,6 +303,46 @@ Definition external_validate (t : ext_task) : result (list ext_warning) ext_erro
   end
   end.
 
+(* ---------- the seven applicability conditions of C11 as decidable predicates over the task ---------- *)
+Definition task_spec_private (t : ext_task) : list pred :=
+  match et_specification t with
+  | inl p => private_predicates (ug_public_predicates (et_user_guide t)) (program_preds p)
+  | inr s => private_predicates (ug_public_predicates (et_user_guide t)) (spec_predicates s)
+  end.
+Definition task_prog_private (t : ext_task) : list pred :=
+  private_predicates (ug_public_predicates (et_user_guide t)) (program_preds (et_program t)).
+Definition is_nil {A} (l : list A) : bool := match l with [] => true | _ => false end.
+
+(* 1. both programs are tight, unless --bypass-tightness *)
+Definition c_tight (t : ext_task) : bool :=
+  et_bypass_tightness t
+  || (is_tight (et_program t) && match et_specification t with inl p => is_tight p | inr _ => true end).
+(* 2. free of private recursion *)
+Definition c_no_private_recursion (t : ext_task) : bool :=
+  negb (has_private_recursion (et_program t) (task_prog_private t))
+  && match et_specification t with inl p => negb (has_private_recursion p (task_spec_private t)) | inr _ => true end.
+(* 3. no input predicate heads a rule *)
+Definition c_no_input_in_head (t : ext_task) : bool :=
+  is_nil (iset_inter pred_dec (ug_input_predicates (et_user_guide t)) (head_predicates_fol (et_program t)))
+  && match et_specification t with
+     | inl p => is_nil (iset_inter pred_dec (ug_input_predicates (et_user_guide t)) (head_predicates_fol p))
+     | inr _ => true end.
+(* 4. input and output declarations are disjoint *)
+Definition c_io_disjoint (t : ext_task) : bool :=
+  is_nil (iset_inter pred_dec (ug_input_predicates (et_user_guide t)) (ug_output_predicates (et_user_guide t))).
+(* 5. user-guide assumptions mention only input predicates *)
+Definition c_ug_assumptions_inputs_only (t : ext_task) : bool :=
+  assumptions_only_input [] (ug_input_predicates (et_user_guide t)) (ug_formulas (et_user_guide t)).
+(* 6. specification assumptions mention no output predicate *)
+Definition c_spec_assumptions_no_output (t : ext_task) : bool :=
+  match et_specification t with
+  | inl _ => true
+  | inr s => spec_assumptions_no_output (ug_output_predicates (et_user_guide t)) s
+  end.
+(* 7. no placeholder is declared with two sorts *)
+Definition c_placeholders_single_sorted (t : ext_task) : bool :=
+  negb (placeholder_clash (ug_placeholders (et_user_guide t)) []).
+
 (* theory_translate; None = panic (expect) *)
 Definition theory_translate (t : ext_task) (m : placeholders) (p : program) : option theory :=
   match completion (rp_theory m (tau_star p)) (ug_input_predicates (et_user_guide t)) with
@@ -382,4 +422,5 @@ End Components.
 
 (* EXTRACT: ext_task external_validate external_decompose validated_decompose assembled_decompose
    head_predicate control_translate rename_predicates ug_input_predicates ug_output_predicates
-   ug_public_predicates ug_placeholders spec_predicates *)
+   ug_public_predicates ug_placeholders spec_predicates c_tight c_no_private_recursion c_no_input_in_head
+   c_io_disjoint c_ug_assumptions_inputs_only c_spec_assumptions_no_output c_placeholders_single_sorted *)
